@@ -79,7 +79,13 @@ class Pitches(tuple):
 def sval(v):
     if isinstance(v, Pitches):
         return v[0]
-    return "none" if v is None else v
+    if v is None:
+        return "none"
+    if isinstance(v, type):
+        return "the-class-" + v.__name__           # a class object stored as the value
+    if not isinstance(v, (int, str)) or isinstance(v, bool):
+        return "an-object-of-type-" + type(v).__name__
+    return v
 
 
 def snest(t):
@@ -95,18 +101,21 @@ from mutwo import core_parameters as cp  # noqa: E402
 from mutwo import core_converters as cc  # noqa: E402
 
 
-class Voice(ce.Consecution, class_specific_side_attribute_tuple=("instruments",)):
-    """a user subclass with a mutable side attribute (the documented way to attach extras to a container)"""
+class Voice(ce.Consecution, class_specific_side_attribute_tuple=("instruments", "bars")):
+    """a user subclass with mutable side attributes (the documented way to attach extras to a container): a list, and a
+    tuple that holds mutable objects (a bar length as a Duration object, a list)"""
 
-    def __init__(self, *args, instruments=None, **kwargs):
+    def __init__(self, *args, instruments=None, bars=None, **kwargs):
         super().__init__(*args, **kwargs)
         self.instruments = instruments if instruments is not None else []
+        self.bars = bars if bars is not None else (cp.DirectDuration(4), [3, 4])
 
 
-class Staff(ce.Concurrence, class_specific_side_attribute_tuple=("instruments",)):
-    def __init__(self, *args, instruments=None, **kwargs):
+class Staff(ce.Concurrence, class_specific_side_attribute_tuple=("instruments", "bars")):
+    def __init__(self, *args, instruments=None, bars=None, **kwargs):
         super().__init__(*args, **kwargs)
         self.instruments = instruments if instruments is not None else []
+        self.bars = bars if bars is not None else (cp.DirectDuration(4), [3, 4])
 
 
 def gbuild(x, ev, du, te):
@@ -162,6 +171,8 @@ def reach(e, acc=None):
             v = e.__dict__.get(extra)
             if isinstance(v, list):
                 acc[id(v)] = v
+        for v in e.__dict__.get("bars", ()):
+            acc[id(v)] = v                   # the mutable objects inside a tuple-valued side attribute
         if not (isinstance(e, ce.Envelope) and False):
             if id(t) not in acc:
                 if isinstance(t, ce.Envelope):
@@ -190,7 +201,9 @@ def deep_snap(e):
     if isinstance(e, ce.Chronon):
         return ("L", round(float(e.duration) * TICK), type(e.duration).__name__, e.tag, getattr(e, "pitch", None),
                 tuple(getattr(e, "pitch_list", ())), tsnap(e.tempo))
-    return (type(e).__name__, e.tag, tuple(getattr(e, "instruments", ())), tsnap(e.tempo), tuple(deep_snap(c) for c in e))
+    bars = getattr(e, "bars", None)
+    bars = None if bars is None else (float(bars[0]), tuple(bars[1]))
+    return (type(e).__name__, e.tag, tuple(getattr(e, "instruments", ())), bars, tsnap(e.tempo), tuple(deep_snap(c) for c in e))
 
 
 def mutate_everything(e, salt):
@@ -205,6 +218,9 @@ def mutate_everything(e, salt):
         return
     if isinstance(getattr(e, "instruments", None), list):
         e.instruments.append(f"mut{salt}")   # in place on the side attribute
+    if getattr(e, "bars", None) is not None:
+        e.bars[0].add(salt)                  # in place on the objects a tuple-valued side attribute holds
+        e.bars[1].append(salt)
     e.tag = f"mut{salt}"
     mutate_tempo(e.tempo, salt)
     for c in list(e):
@@ -310,6 +326,12 @@ def run(case):
             plain = case[3][0] == "const" and int(case[3][1]) % 2 == 0
             if plain:
                 t.set_parameter("pitch", int(case[3][1]), **kw)   # a plain value instead of a function
+            elif sum(map(ord, sx.show(case))) % 4 == 1:
+                # the function may be a class (str, Fraction, a user-defined wrapper ...): calling it yields the new value
+                class Apply:
+                    def __new__(cls, old):
+                        return f(old)
+                t.set_parameter("pitch", Apply, **kw)
             else:
                 t.set_parameter("pitch", f, **kw)
             ls = {o.oid: o for o in leaves(t)}
